@@ -90,14 +90,13 @@ def opV1b (x : B) : Outcome String := do
 def opV1s (x : B) : String :=
   if !Utf8.valid x then "notutf8" else
   let a := outcomeStr (do let r ← V1.parseStrP x; v1StrResult r)
-  -- `FromStr` delegates to `try_from(&str)`, so it panics exactly when that does; its value is
-  -- computed by the model's own `fromStrHeader` / `fromStrAddresses`
+  -- `FromStr` through the panic-aware twins (`C03.fromStrHeader_no_panic`, `fromStrAddresses_no_panic`)
   let b := outcomeStr (do
-    let _ ← V1.parseStrP x
-    v1StrResult (V1.fromStrHeader x))
+    let r ← V1.fromStrHeaderP x
+    v1StrResult r)
   let c := outcomeStr (do
-    let _ ← V1.parseStrP x
-    pure (match V1.fromStrAddresses x with
+    let r ← V1.fromStrAddressesP x
+    pure (match r with
       | .ok a => s!"ok addr={v1Addr a}"
       | .error e => s!"err {v1Err e}"))
   s!"{a} | {b} | {c}"
